@@ -382,6 +382,12 @@ def predict_constructed_model(d, ctx):
     single = d.int(0, 2) == 0
     rng = d.rng()
     w = rng.dirichlet(np.ones(K) * d.choice([0.3, 1.0, 5.0]), size=lead)[..., None]
+    if d.epoch >= 3 and K >= 2 and d.aux(11).integers(0, 4) == 0:
+        # "whenever every class has non-zero mass": stored weights of any
+        # positive size (1e-30..1) - a class that is almost, not entirely, gone
+        # and still the most likely one for the observations on its prototype
+        w = 10.0 ** d.aux(12).uniform(-30, 0, size=np.shape(w))
+        w = w / w.sum(axis=-2, keepdims=True)
     case = mm.Case(kind=kind, lead=lead, K=K, D=D, N=N)
     case.meta.update(single=single)
     mask = None
